@@ -45,6 +45,9 @@ def run(ctx):
                       "drivers leave on break; loop bodies run with in_loop = true; CMD continue / break act only under in_loop")
     ctx.rule("R14-5", "the continue / break flags returned by every nested run_exp / run_exp_if / run_exp_test_br call are "
                       "used: forwarded in the caller's return value, or (break, in a loop driver) tested")
+    ctx.rule("R14-6", "indentation does not change the structure, also on the first line: every alternative of the top "
+                      "rule's repetition admits the implicit WHITESPACE skip before its first terminal (the first "
+                      "iteration at offset 0 is the one position pest does not put a skip in front of)")
     ctx.rule("R14-4", "run_exp_if leaves at the first passed branch; a body runs only under test_pass; `while` calls its "
                       "head test on every iteration; `for` calls set_env(var, value) before each body run, iterating forward")
     gpath = os.path.join(ctx.root, "src", "parsers", "grammar.pest")
@@ -75,6 +78,15 @@ def anchor_rule(ctx, crate, g):
     if not ctx.require(top is not None and top in g.rules, "R14-1", "R14-1|%s|top" % b.path,
                        "cannot identify the grammar rule passed to the parser", b.path):
         return
+    alts = g.first_alternatives(top)
+    for label, e in alts:
+        oks = g.leading_skip(e)
+        ctx.ob("R14-6", b.path, "a leading blank before %s at the start of the text is skipped" % label, oks,
+               key="R14-6|grammar|%s|leading-blank|%s" % (top, label), crate=crate.kind,
+               detail=None if oks else "an indented first line opening this block is read as a plain command; its closing "
+               "keyword then fails the whole parse (nothing runs, status 0)")
+    ctx.ob("R14-6", b.path, "%d alternative(s) can start at offset 0 of %s" % (len(alts), top), True, crate=crate.kind,
+           nontrivial=False)
     ok = g.ends_with_eoi(top)
     ctx.ob("R14-1", b.path, "top rule %s ends in EOI" % top, ok, key="R14-1|grammar|%s-anchored" % top, crate=crate.kind,
            detail=None if ok else "with an unanchored `(...)*` a script whose block keywords do not balance parses as a "
